@@ -328,9 +328,11 @@ func (w *World) genStream(r *core.Rand) *C09Run {
 	}
 	depth := 2 + r.Intn(7)
 	maxLen := 10 + r.Intn(50)
-	if r.Intn(40) == 0 {
-		maxLen = 150 + r.Intn(100)
-		depth = 12
+	if r.Intn(12) == 0 {
+		// long, deeply nested streams: a parser stack far deeper than any
+		// fixed-size window
+		maxLen = 60 + r.Intn(190)
+		depth = 12 + r.Intn(30)
 	}
 	var names []string
 	switch k := r.Intn(10); {
